@@ -97,7 +97,7 @@ class Merged:
             self.violations[sig] = {"signature": sig, "detail": detail, "replay": replay, "count": count}
 
 
-def run_vh_batches(vh, prop, tier, nbatch, work, timeout, extra_args=None, merged=None, mode=None, env=None):
+def run_vh_batches(vh, prop, tier, nbatch, work, timeout, extra_args=None, merged=None, mode=None, env=None, workers=None):
     """Run `vh <prop>` in nbatch child processes; a crash of a child is attributed
     to the case it logged last."""
     merged = merged or Merged(prop)
@@ -128,7 +128,7 @@ def run_vh_batches(vh, prop, tier, nbatch, work, timeout, extra_args=None, merge
         shutil.rmtree(scratch, ignore_errors=True)
         return b, rc, out, caselog, errf, time.time() - t0
 
-    with concurrent.futures.ThreadPoolExecutor(max_workers=min(jobs(), nbatch)) as ex:
+    with concurrent.futures.ThreadPoolExecutor(max_workers=min(workers or jobs(), nbatch)) as ex:
         for b, rc, out, caselog, errf, dt in ex.map(one, range(nbatch)):
             if rc == 0 and os.path.exists(out):
                 with open(out) as f:
